@@ -18,6 +18,16 @@ CHECKS = {
         "Betdaq cutoffs. Values off the grids are not covered.",
         section="6/C17",
     ),
+    "C16": dict(
+        engine="E3 gridx",
+        technique="exhaustive enumeration of order multisets on real Blotter/BetfairOrder objects against a brute-force worst-case reference (all fill subsets x all winner sets)",
+        text="Every multiset of <=3 (thorough 4) orders per selection from 88 real-order templates (both sides, classic/finest/line/LOC/MOC, "
+        "matched splits, every status reachable through the public status methods), in live and simulated representation, each order in turn as "
+        "exclusion, 9 templates as new_order, the same order as both; market level over 3 selections x winners 1..3 x extra runners. The reference "
+        "enumerates fill subsets and winner sets instead of using flumine's closed form, so any wrong sign, side, filter or rounding shows up.",
+        note="Trusts the brute-force reference in mc/refs.py and a pennies tolerance (0.005*matched+0.02). Sizes/prices outside the menu and >4 orders per selection are not covered.",
+        section="6/C16",
+    ),
 }
 
 PENDING_REASON = "check not built yet in this session (work in progress; see DESIGN.md section 8 for the order of work)"
